@@ -11,6 +11,12 @@ package multinode
 //@   valid self.clientMonitor != nil
 //@   valid forall k string :: in(self.syncCommitteeMessagesSubmitter, k) ==> !isnil(self.syncCommitteeMessagesSubmitter[k])
 //@   valid self.processConcurrency >= 1
+//@   valid forall k string :: in(self.proposalSubmitters, k) ==> !isnil(self.proposalSubmitters[k])
+//@   valid forall k string :: in(self.aggregateAttestationsSubmitters, k) ==> !isnil(self.aggregateAttestationsSubmitters[k])
+//@   valid forall k string :: in(self.proposalPreparationsSubmitters, k) ==> !isnil(self.proposalPreparationsSubmitters[k])
+//@   valid forall k string :: in(self.beaconCommitteeSubscriptionSubmitters, k) ==> !isnil(self.beaconCommitteeSubscriptionSubmitters[k])
+//@   valid forall k string :: in(self.syncCommitteeSubscriptionSubmitters, k) ==> !isnil(self.syncCommitteeSubscriptionSubmitters[k])
+//@   valid forall k string :: in(self.syncCommitteeContributionsSubmitters, k) ==> !isnil(self.syncCommitteeContributionsSubmitters[k])
 //@   valid forall k string :: in(self.attestationsSubmitters, k) ==> !isnil(self.attestationsSubmitters[k])
 //@
 //@ extern golang.org/x/sync/semaphore.NewWeighted
@@ -55,6 +61,8 @@ package multinode
 //@
 //@ func (*Service).SubmitAggregateAttestations
 //@   requires s != nil && nolocks()
+//@   // built by Vouch's own aggregator
+//@   requires forall k int :: 0 <= k && k < len(aggregates) ==> aggregates[k] != nil && aggregates[k].Message != nil && aggregates[k].Message.Aggregate != nil && aggregates[k].Message.Aggregate.Data != nil
 //@   // one submission goroutine per configured node, each handed that node's client, the whole submission and the
 //@   // shared completion flag
 //@   at call go#1: assert in(s.aggregateAttestationsSubmitters, arg5) && arg7 == s.aggregateAttestationsSubmitters[arg5] && arg6 == aggregates && arg4 == submissionCompleted && arg3 == w
@@ -123,6 +131,8 @@ package multinode
 //@
 //@ func (*Service).SubmitSyncCommitteeContributions
 //@   requires s != nil && nolocks()
+//@   // built by Vouch's own sync committee aggregator
+//@   requires forall k int :: 0 <= k && k < len(contributionAndProofs) ==> contributionAndProofs[k] != nil && contributionAndProofs[k].Message != nil && contributionAndProofs[k].Message.Contribution != nil
 //@   // one submission goroutine per configured node, each handed that node's client, the whole submission and the
 //@   // shared completion flag
 //@   at call go#1: assert in(s.syncCommitteeContributionsSubmitters, arg5) && arg7 == s.syncCommitteeContributionsSubmitters[arg5] && arg6 == contributionAndProofs && arg4 == submissionCompleted && arg3 == w
